@@ -75,6 +75,14 @@ CHECKS["C11"] = (
     "DESIGN.md section 2 / C11",
 )
 
+CHECKS["C02"] = (
+    "proptest-generated C type graphs x presentation option sets; differential probe pair (clang-compiled C program vs rustc-compiled Rust program over the bindings)",
+    "exploration",
+    "For each generated type graph the sizes, alignments, member offsets, member widths and integer signedness that clang computes (a compiled and executed C probe) are compared with what rustc computes for the bindings (a compiled and executed Rust probe that walks the same member paths through the emitted field names), under the default option set and two drawn presentation option sets; the embedded layout assertions are compiled along the way. Differential execution against the real compilers is the right level because the property is about agreement with the C compiler, which no model should replace.",
+    "Host target only; types emitted as opaque blobs are compared by size/alignment; constructs for which bindgen is known to emit uncompilable or mis-laid-out code (known_findings.json) are excluded by construction and counted; bit-field members themselves belong to C03.",
+    "DESIGN.md section 2 / C02",
+)
+
 NOT_YET = {}
 
 def main():
